@@ -452,6 +452,25 @@ EioLost(m, t, reason) ==
 (* while `during` happens (ACKs arriving, transports being lost); the     *)
 (* frames and transport events that arrive meanwhile are processed by      *)
 (* other threads / tasks and contained there                               *)
+(* A session block that stays open while its client leaves the namespace,   *)
+(* comes back (a NEW session id on the same transport) and has a session    *)
+(* saved: the block's dictionary is the stored one, so its write is visible *)
+(* at once; on exit save_session() no longer finds the old session id       *)
+(* (KeyError) and the newcomer's session is what was saved for it.          *)
+SessionBlockD(m, a) ==
+    LET t  == TOf(m.s, a.sid, a.ns)
+        m1 == SaveSession(GetSession(m, a.sid, a.ns), a.sid, a.ns, a.val)
+        m2 == DiscOne(m1, t, a.ns, "client disconnect")
+        m3 == RxConnect(m2, t, a.ns, "absent")
+        m4 == SaveSession(m3, a.newsid, a.ns, a.val2)
+    IN  SaveSession(m4, a.sid, a.ns, a.val)
+SessionBlockDSubActs(s, a) ==      \* the same as a sequence of ordinary actions (for the ghosts)
+    LET t == TOf(s, a.sid, a.ns)
+    IN  << [act |-> "SaveSession", sid |-> a.sid, ns |-> a.ns, val |-> a.val, live |-> FALSE, need |-> 0],
+           [act |-> "RxDisconnect", t |-> t, ns |-> a.ns, live |-> FALSE, need |-> 0],
+           [act |-> "RxConnect", t |-> t, ns |-> a.ns, auth |-> "absent", live |-> FALSE, need |-> 0],
+           [act |-> "SaveSession", sid |-> a.newsid, ns |-> a.ns, val |-> a.val2, live |-> FALSE, need |-> 0] >>
+
 RECURSIVE DuringS(_, _)
 DuringS(m, steps) ==
     IF steps = <<>> THEN m
@@ -528,6 +547,7 @@ Step(m, a) ==
       \* a session block opened inside another one for the same client (a helper called by a
       \* handler): both see ONE session, the outcome is that of a single block
       [] a.act = "SessionNested" -> SessionBlock(m, a.sid, a.ns, a.val)
+      [] a.act = "SessionBlockD" -> SessionBlockD(m, a)
       [] a.act = "GetEnviron"   -> GetEnviron(m, a.sid, a.ns)
       [] a.act = "Arm"          -> [m EXCEPT !.s.raiseDisc =
                                         IF a.ns \in @ THEN @ \ {a.ns} ELSE @ \cup {a.ns}]
@@ -550,6 +570,10 @@ Enabled(s, a) ==
     /\ a.live => Has(AllMembers(s, a.ns), a.sid)     \* only for a client that is there
     /\ CASE a.act = "EioOpen" -> s.eio[a.t] = "none" /\ \A u \in Transports : a.after = u => s.eio[u] # "none"
          [] a.act \in {"EioLost", "RxFuzz"} -> s.eio[a.t] = "open"
+         [] a.act = "SessionBlockD" ->
+                LET t == TOf(s, a.sid, a.ns)
+                IN  /\ t # "none" /\ s.eio[t] = "open" /\ ~Has(s.binbuf, t)
+                    /\ s.nextSid <= MaxSid /\ a.newsid = SidName(s.nextSid)
          [] a.act = "RxConnect" -> s.eio[a.t] = "open" /\ s.nextSid <= MaxSid /\ ~Has(s.binbuf, a.t)
          [] a.act \in {"RxDisconnect", "RxEvent", "RxAck", "RxAckDup", "RxRaw"} -> s.eio[a.t] = "open" /\ ~Has(s.binbuf, a.t)
          [] a.act = "RxFrame" -> /\ s.eio[a.t] = "open"
@@ -649,7 +673,7 @@ Stale(s2, g2) ==
                      /\ s2.sess[x[1]][x[2]] # "empty"}
     IN  [x \in dead \cup fresh |-> s2.sess[x[1]][x[2]]]
 
-GhostNext(s, g, a) ==
+GhostNext1(s, g, a) ==
     IF g.dev # {} THEN g ELSE    \* after a known deviation the history is no longer tracked
     LET o  == Do(s, a)
         g1 == CountDisc(GhostStep(s, g, a, o), o.hc)
@@ -657,6 +681,14 @@ GhostNext(s, g, a) ==
     IN  IF "D3" \in Dev /\ o.exc = "Boom" /\ \E i \in 1..Len(o.hc) : o.hc[i].ev = "disconnect"
         THEN [g2 EXCEPT !.dev = @ \cup {"D3"}]
         ELSE g2
+
+(* a composite action moves the ghosts like the sequence of its parts *)
+RECURSIVE GhostFold(_, _, _)
+GhostFold(s, g, acts) ==
+    IF acts = <<>> THEN g
+    ELSE GhostFold(Do(s, Head(acts)).s, GhostNext1(s, g, Head(acts)), Tail(acts))
+GhostNext(s, g, a) ==
+    IF a.act = "SessionBlockD" THEN GhostFold(s, g, SessionBlockDSubActs(s, a)) ELSE GhostNext1(s, g, a)
 
 ----------------------------------------------------------------------------
 Init == st = InitSt /\ gh = InitGh
